@@ -34,6 +34,10 @@ pub mod persistence;
 pub mod range;
 pub mod recovery;
 pub mod ttl;
+#[cfg(feoxdb_verif)]
+mod verif_access;
+#[cfg(feoxdb_verif)]
+pub use self::verif_access::VerifRecord;
 
 pub(super) struct VersionClock {
     hasher: RandomState,
